@@ -229,6 +229,18 @@ theorem conn_accepts_iff_fits (l : Nat) (ops : List COp) (hl0 : l ≤ 2147483647
   obtain ⟨a, b, _⟩ := step_data false e.2 size pad h1 hleg
   exact ⟨a, b⟩
 
+/-- **No stream of the connection wedges**: on every open stream on which everything delivered has been
+    read or given back (payload read by the application, padding returned at once), the peer holds the
+    current advertised initial window up to a batched credit that is zero or strictly below a quarter of
+    it, and at least one byte (`Ghost.restored`, with `cfg` = the connection's initial window). -/
+theorem conn_no_wedge (l : Nat) (ops : List COp) (hl0 : l ≤ 2147483647)
+    (hl : clegalRun (Conn.init l) ops = true) :
+    ∀ e ∈ (crun (Conn.init l) ops).streams, e.2.g.outstanding = 0 →
+      e.2.g.restored = true ∧ e.2.g.cfg = (crun (Conn.init l) ops).iws := by
+  intro e he h0
+  obtain ⟨h1, h2⟩ := (crun_inv _ ops (cinv_init l hl0) hl).each e he
+  exact ⟨finv_restored e.2 h1 h0, h2⟩
+
 /-- **A new stream starts with exactly the advertised window**: when a stream is registered — after
     any history, BDP updates included — the limit it enforces and the window the peer holds for it are
     both the connection's current initial window. -/
